@@ -83,6 +83,11 @@ def make_grammars(tier, seed):
             seen.add(g.key())
             gs.append(g)
     n = 420 if tier == "quick" else 3000
+    for _ in range(24 if tier == "quick" else 200):
+        g = GR.nullable_tail_family(rng)
+        if g.key() not in seen:
+            seen.add(g.key())
+            gs.append(g)
     for _ in range(n):
         g = GR.random_grammar(rng)
         if g.key() not in seen:
